@@ -29,6 +29,22 @@ type c04Case struct {
 	TextStyle int `json:"text_style,omitempty"`
 }
 
+// anchorsFirst emits the extension sections that carry anchors before the sections that refer to them.
+func anchorsFirst(path string, keys []string) []string {
+	if path != "" {
+		return keys
+	}
+	var first, rest []string
+	for _, k := range keys {
+		if strings.HasPrefix(k, "x-mk-") {
+			first = append(first, k)
+		} else {
+			rest = append(rest, k)
+		}
+	}
+	return append(first, rest...)
+}
+
 func textStyled(doc string, style int) string {
 	switch style {
 	case 1:
@@ -189,6 +205,43 @@ func genC04(t *rapid.T) c04Case {
 	if rapid.IntRange(0, 3).Draw(t, "usetag") == 0 {
 		cs.Tag, target = applyTag(t, target, parts)
 	}
+	// YAML merge keys: some mappings of a part take half of their entries from an anchored extension section of
+	// the same file (`<<: *anchor`); the target carries the same extension sections as plain content
+	if rapid.IntRange(0, 3).Draw(t, "mergekeys") == 0 {
+		n := 0
+		for pi, part := range parts {
+			svcs, _ := part["services"].(map[string]any)
+			for _, sn := range sortedKeys(svcs) {
+				svc, _ := svcs[sn].(map[string]any)
+				for _, attr := range []string{"labels", "environment", "annotations", "sysctls", "logging", "healthcheck", "deploy"} {
+					m, ok := svc[attr].(map[string]any)
+					if !ok || len(m) < 2 || hasTagged(m) || n >= 3 || !rapid.Bool().Draw(t, "mk") {
+						continue
+					}
+					keys := sortedKeys(m)
+					shared := map[string]any{}
+					rest := map[string]any{}
+					for i, k := range keys {
+						if i%2 == 0 {
+							shared[k] = m[k]
+						} else {
+							rest[k] = m[k]
+						}
+					}
+					n++
+					ext := fmt.Sprintf("x-mk-%d-%d", pi, n)
+					anchor := fmt.Sprintf("mk%d%d", pi, n)
+					part[ext] = tagged{Tag: "&" + anchor, V: cloneTree(shared)}
+					rest["<<"] = rawScalar("*" + anchor)
+					svc[attr] = rest
+					target[ext] = cloneTree(shared)
+				}
+			}
+		}
+		if n > 0 {
+			sp.used["yaml-merge-keys"] += n
+		}
+	}
 	cs.Target = emitYAML(target, nil)
 	styleSeed := 0
 	if rapid.IntRange(0, 2).Draw(t, "styled") == 0 {
@@ -196,7 +249,7 @@ func genC04(t *rapid.T) c04Case {
 	}
 	for _, p := range parts {
 		// the parts may be written in another YAML style (flow collections, anchors and aliases): same files
-		cs.Parts = append(cs.Parts, emitYAMLStyled(p, nil, styleSeed))
+		cs.Parts = append(cs.Parts, emitYAMLStyled(p, anchorsFirst, styleSeed))
 	}
 	if !cs.AsDocs && rapid.IntRange(0, 3).Draw(t, "textstyled") == 0 {
 		cs.TextStyle = rapid.IntRange(1, 3).Draw(t, "textstyle")
